@@ -8,6 +8,7 @@ LEVEL_TEXT = ("Differential execution monitoring: sqlglot.executor.execute() vs 
               "generated queries of the executor's fragment; a case is decided only when the two engines agree with each "
               "other (or one of them does not accept the syntax and DuckDB is self-consistent with its optimizer off). "
               "Held on the executions observed.")
+LEVEL_TEXT += (' Predicates are also observed three-valued (NULL / FALSE / TRUE told apart in the result rows).')
 LEVEL_NOTE = "trusts the consensus of SQLite 3.40.1 and DuckDB 1.5.5; ExecuteError is an allowed outcome"
 TECHNIQUE = "runtime monitoring: differential execution of the Python executor against two reference engines"
 RULE = ("seeded typed query generator (scan/filter/project, all join kinds, GROUP BY/HAVING, DISTINCT, ORDER BY/LIMIT/OFFSET, "
